@@ -6,6 +6,11 @@ ALL = ["C%02d" % i for i in range(1, 21)]
 
 # id -> (level category, engine, technique, level text, level note, design ref)
 CLAIMED = {
+ "C06": ("exploration", "E1 statement/quoting enumeration with the harness' own RFC 7950 6.1.3 evaluator",
+         "exhaustive enumeration of statement site x quoting style x text alphabet (and property tables, concatenation counts, comment placements, extension placements, sibling permutations), each module loaded by the real lexer/parser/compiler and every accessor compared with the value the generator wrote",
+         "46 text-argument sites on every statement kind x 7 quoting styles (unquoted, single-quoted, double-quoted with each escape, literal line break, concatenation of 2 / mixed quotes / one part per character) x 22 values (quotes, backslashes, ;{}, comment-like text, tab/newline, outer/inner space, keywords, non-ASCII, +, empty); ~90 non-text properties (config incl. inheritance, mandatory, min/max-elements, unbounded, ordered-by, key and unique in 9 spacing/quoting variants, status, defaults, enum values and bit positions with explicit 0 / non-monotonic, fraction-digits, revisions, version, prefix, identity bases, identifiers that start with keywords); concatenations of 2..100 parts with three separators; 8 comment/white-space fillers before every token of a module (dump must be unchanged); extension statements in 4 forms on 19 hosts incl. secondary keywords; all 840 ordered selections of 4 of 7 sibling kinds in 5 parents (textual order kept, uses expanded in place); RFC 7950 6.1.3 indentation stripping; repeated loads give identical dumps.",
+         "trusted: the generator's expected values (what it wrote) and model.DumpModule; map-iteration-order dependence is only covered by repeated in-process loads (no controlled map order)",
+         "DESIGN.md section 7 C06"),
  "C11": ("exploration", "E1 expression/statement enumeration with a reference evaluator",
          "exhaustive enumeration of if-feature token strings up to a length bound x all 8 feature assignments x guardable statement kinds, and of deviation kind x property x target, each loaded by the real parser/resolver and compared with a reference RFC 7950 evaluator / a differential dump",
          "Every token string of length <= 5 (thorough 7: 2.4 million) over {a,b,c,and,or,not,(,)} is parsed by a reference recursive-descent grammar (RFC 7950 7.20.2); malformed strings (classified: unbalanced, missing operand/operator, leading/trailing operator) must fail the load; valid ones are evaluated under all 2^3 assignments and compared with the presence of the guarded node after a real load (length <= 4) or with IfFeature.Evaluate on the compiled expression (longer). White-space variants (double space, tab, newline, outer space, tight parentheses); every valid expression of <= 3 tokens on 14 guardable statement kinds (leaf, container, list, leaf-list, choice, case, uses, augment, uses-augment, refine, two if-features, anydata, rpc, notification) under allow-list, deny-list and default configurations; own-prefix, imported-prefix and feature-on-feature names. 40 deviations (not-supported on every node kind; add/replace/delete of every property incl. type, unique, must, leaf-list defaults; illegal uses): the canonical accessor dump of the deviated module must differ from the undeviated one in exactly the named property or node, with the exact new value.",
